@@ -772,6 +772,14 @@ func (w *world) runPeer(kind string, opText string, wire int, m protocol.Message
 	acc.alloc += ta
 	wl := len(w.p.VerifWriter())
 	outs := w.drainWriter()
+	// everything the handlers queue must be writable: the writer goroutine runs the real
+	// protocol.Write on it, and a panic there takes the process down
+	for _, o := range outs {
+		if _, perr := encode(o); strings.HasPrefix(perr, "panic:") {
+			tn := strings.SplitN(wirecanon.Canon(o), " ", 2)[0]
+			w.violate("panic:writer:"+tn, "protocol.Write panicked on a message the handler queued for the writer: "+perr+" message "+clip(wirecanon.Canon(o))+" queued while handling "+clip(opText), append(w.c.Case(), opLineFor(kind, opText)))
+		}
+	}
 	if _, isChoke := m.(protocol.Choke); isChoke && pre.CanFast {
 		w.stale = append([]uint32(nil), pre.Queue...)
 	}
@@ -1044,6 +1052,17 @@ func (w *world) tick() {
 		w.violate("panic:tor:tick:"+infoTok(w), "the torrent's periodic request (scheduler / idle piece picking) panicked on state a peer's messages produced: "+pn, w.c.Case())
 	}
 	w.pumpPending()
+}
+
+// opLineFor: the op line of a call that has not been emitted yet (for replays)
+func opLineFor(kind, opText string) string {
+	switch kind {
+	case "msg":
+		return "msg 00 0 " + opText
+	case "exit":
+		return "exit 0"
+	}
+	return kind + " 0 " + opText
 }
 
 func infoTok(w *world) string {
